@@ -334,6 +334,9 @@ class AsyncFIXConnection:
                         self._msg_buffer = self._msg_buffer[parsed_length:]
 
                     if decoded_msg is None:
+                        if parsed_length > 0 and self._msg_buffer:
+                            # a bad frame was skipped, frames behind it are ready
+                            continue
                         break
 
                     await self._process_message(decoded_msg, raw_msg)
